@@ -40,7 +40,11 @@ def load_known():
 def worker_task(task):
     check_id, case = task
     mod = importlib.import_module("mc.checks." + check_id.lower())
-    return mod.run_case(case)
+    t0 = time.process_time()
+    res = mod.run_case(case)
+    if isinstance(res, dict):
+        res.setdefault("cpu_s", round(time.process_time() - t0, 2))
+    return res
 
 
 def worker_init():
